@@ -357,7 +357,14 @@ func genOverlay(p *packages.Package, con *Contracts, L *Loaded) (string, []strin
 	w("func __trigger(x ...any) bool { return true }\n")
 	w("func __has[K comparable, V any](m map[K]V, k K) bool { return true }\n")
 	w("func __same[T any](a, b T) bool { return true }\n")
-	w("func __fresh(x any) bool { return true }\n\n")
+	w("func __fresh(x any) bool { return true }\n")
+	// aliases for types whose names are commonly shadowed by parameter names
+	for _, tn := range []string{"table", "archetype", "column", "filter", "cache", "lock", "node", "graph", "storage"} {
+		if p.Types.Scope().Lookup(tn) != nil {
+			w("type __T_%s = %s\n", tn, tn)
+		}
+	}
+	w("\n")
 
 	for _, d := range con.Decls {
 		w("//origin %s %s (%s:%d)\n", d.Kind, d.Name, filepath.Base(d.File), d.Line)
